@@ -130,18 +130,18 @@ type Stream struct {
 	ID      uint32
 	OpenSeq int // Seq of the frame that opened the stream
 
-	InHeaderBlocks int    // header blocks started by grpc-go
-	InEnd          bool   // grpc-go sent END_STREAM
-	InEndSeq       int    // Seq of that frame
-	InEndOnHeaders bool   // END_STREAM was carried by a HEADERS frame (trailers / trailers-only)
-	InRST          bool   // grpc-go sent RST_STREAM
-	InRSTCode      http2.ErrCode
-	InRSTSeq       int
-	InData         []byte // concatenated DATA payload written by grpc-go
-	InDataFrames   int
-	InDataAfterOutRST int // DATA frames from grpc-go after the peer's RST_STREAM was written (in flight; legal)
-	InWUAfterClose int   // WINDOW_UPDATEs from grpc-go after its own END_STREAM/RST (statistic)
-	InContentSeqs  []int // Seq of every DATA/HEADERS/CONTINUATION frame written by grpc-go on this stream
+	InHeaderBlocks    int  // header blocks started by grpc-go
+	InEnd             bool // grpc-go sent END_STREAM
+	InEndSeq          int  // Seq of that frame
+	InEndOnHeaders    bool // END_STREAM was carried by a HEADERS frame (trailers / trailers-only)
+	InRST             bool // grpc-go sent RST_STREAM
+	InRSTCode         http2.ErrCode
+	InRSTSeq          int
+	InData            []byte // concatenated DATA payload written by grpc-go
+	InDataFrames      int
+	InDataAfterOutRST int   // DATA frames from grpc-go after the peer's RST_STREAM was written (in flight; legal)
+	InWUAfterClose    int   // WINDOW_UPDATEs from grpc-go after its own END_STREAM/RST (statistic)
+	InContentSeqs     []int // Seq of every DATA/HEADERS/CONTINUATION frame written by grpc-go on this stream
 
 	OutHeaderBlocks int
 	OutEnd          bool
@@ -179,21 +179,21 @@ func (v Violation) String() string { return fmt.Sprintf("[%s] at #%d: %s", v.Kin
 
 // Stats are counters useful for class labels / non-trivial rules.
 type Stats struct {
-	InDataFrames, InDataBytes    int64
-	InConnZeroHits               int // times a DATA frame from grpc-go left the connection window == 0
-	InStreamZeroHits             int // same for stream windows (sum over streams)
-	IWSLoweredBelowOutstanding   int // stream windows made negative by an acknowledged IWS decrease
-	InSettingsAcks               int
-	InMaxFragLen                 int
-	InContinuations              int
-	InWUAfterClose               int
-	InRSTAfterTrailers           int // server role: RST_STREAM(NO_ERROR) after trailers
-	OutDataFrames, OutFlowBytes  int64
-	OutOverWindow                int // DATA frames the peer sent beyond a window
-	MaxOpen                      int // maximum of OpenCount seen
-	MaxOpenAtHeaders             int
-	StreamsAtLimit               int // client role: HEADERS that brought open count == limit
-	OpenAboveLimitAfterLowering  int // client role: ACKs after which open count > new limit
+	InDataFrames, InDataBytes   int64
+	InConnZeroHits              int // times a DATA frame from grpc-go left the connection window == 0
+	InStreamZeroHits            int // same for stream windows (sum over streams)
+	IWSLoweredBelowOutstanding  int // stream windows made negative by an acknowledged IWS decrease
+	InSettingsAcks              int
+	InMaxFragLen                int
+	InContinuations             int
+	InWUAfterClose              int
+	InRSTAfterTrailers          int // server role: RST_STREAM(NO_ERROR) after trailers
+	OutDataFrames, OutFlowBytes int64
+	OutOverWindow               int // DATA frames the peer sent beyond a window
+	MaxOpen                     int // maximum of OpenCount seen
+	MaxOpenAtHeaders            int
+	StreamsAtLimit              int // client role: HEADERS that brought open count == limit
+	OpenAboveLimitAfterLowering int // client role: ACKs after which open count > new limit
 }
 
 // Ledger is the independent window / stream-state accounting fed with every
@@ -729,7 +729,11 @@ func (l *Ledger) PendingIWS() (int64, bool) {
 }
 
 // UnackedPeerSettings is the number of peer SETTINGS frames grpc-go has not acknowledged.
-func (l *Ledger) UnackedPeerSettings() int { l.mu.Lock(); defer l.mu.Unlock(); return len(l.pendingSettings) }
+func (l *Ledger) UnackedPeerSettings() int {
+	l.mu.Lock()
+	defer l.mu.Unlock()
+	return len(l.pendingSettings)
+}
 
 // OutConnWindow is the peer's connection send window as granted by grpc-go.
 func (l *Ledger) OutConnWindow() int64 { l.mu.Lock(); defer l.mu.Unlock(); return l.outConnWindow }
@@ -777,7 +781,11 @@ func (l *Ledger) GoAways(dir Dir) []*Frame {
 }
 
 // InPings returns the non-ACK PING frames received from grpc-go.
-func (l *Ledger) InPings() []*Frame { l.mu.Lock(); defer l.mu.Unlock(); return append([]*Frame(nil), l.inPings...) }
+func (l *Ledger) InPings() []*Frame {
+	l.mu.Lock()
+	defer l.mu.Unlock()
+	return append([]*Frame(nil), l.inPings...)
+}
 
 // Tainted reports whether raw bytes were written (Out accounting incomplete).
 func (l *Ledger) Tainted() bool { l.mu.Lock(); defer l.mu.Unlock(); return l.tainted }
